@@ -344,6 +344,10 @@ theorem agree_execAct (hfiles : ∀ p, fs p ≠ none → p ∈ files) (hs : RecS
       obtain ⟨r1, s1⟩ := res
       cases r1 <;> exact ⟨rfl, by simp⟩
   | fail mk => exact ⟨rfl, by simp [execAct]⟩
+  | assignPat exp targets rhs =>
+    refine ⟨rfl, ?_⟩
+    simp only [execAct]
+    cases evalRhs cfg fr s rhs <;> simp
 
 theorem agree_execActs (hfiles : ∀ p, fs p ≠ none → p ∈ files) (hs : RecSound rec)
     (ha : Agree files K rec rec') (acts : List Act) :
